@@ -3,7 +3,12 @@
    rule), a type with the genesis-domain rule and a plain type, every order in which the validators of a call are
    aggregated; plus (for one type) every list of T or T+1 misfiled partials made with cluster keys.  With AggMode = "code" this checks that sigagg.go as transcribed satisfies the statement. *)
 EXTENDS SigAggCases
+CONSTANT Misfiled      \* include every list of T or T+1 misfiled cluster-key partials
 MCTypes == {"attester", "registration", "randao"}
-MCInit == \E ty \in MCTypes : \E s \in FullCalls(ty) \cup (IF ty = "randao" THEN MisfiledCalls(ty) ELSE {}) : InitWith(ty, s)
+MCInit == \E ty \in MCTypes : \E s \in FullCalls(ty) \cup (IF Misfiled /\ ty = "randao" THEN MisfiledCalls(ty) ELSE {}) : InitWith(ty, s)
+\* the tabulated shortcut and the general predicate agree on every misfiled list
+CancelAgree == \A sh \in MisfiledShapes : LET l == ListOf(sh, "randao") IN
+                 (sh \in CancelShapes) = (~AllOK(l, "randao") /\ CanBeValid(l, "A", "randao"))
+ASSUME Misfiled => CancelAgree
 MCSpec == MCInit /\ [][Next]_vars
 ====
